@@ -151,6 +151,30 @@ func (c *Ctx) Prelude() string {
 	return b.String()
 }
 
+// PreludeNoQuantAxioms is Prelude without quantified axioms (used for the weakened query).
+func (c *Ctx) PreludeNoQuantAxioms() string {
+	var b strings.Builder
+	for _, s := range c.sortDecls {
+		b.WriteString(s)
+		b.WriteByte('\n')
+	}
+	for _, s := range c.funDecls {
+		b.WriteString(s)
+		b.WriteByte('\n')
+	}
+	for _, s := range c.defs {
+		b.WriteString(s)
+		b.WriteByte('\n')
+	}
+	for i, s := range c.axioms {
+		if strings.Contains(s, "(forall ") || strings.Contains(s, "(exists ") {
+			continue
+		}
+		fmt.Fprintf(&b, "; axiom %s\n(assert %s)\n", c.axiomName[i], s)
+	}
+	return b.String()
+}
+
 // ---------------------------------------------------------------------------------------
 // term helpers
 
